@@ -176,7 +176,10 @@ Verdict judge_c05(Plan const& p, History const& h, RunInfoLite const& ri)
   Verdict d = check_delivery(m, rules);
   if (d.kind != Verdict::OK)
   {
-    d.tag = "delivery:" + d.tag;
+    // C05 speaks about timestamps and order, not about delivery: a run whose statements are lost or duplicated (another
+    // property's business) is inconclusive here, not a C05 alarm
+    d.kind = Verdict::INCONCLUSIVE;
+    d.tag = "delivery_broken:" + d.tag;
     return d;
   }
   int64_t running_max = 0;
